@@ -80,14 +80,20 @@ func (r *defaultSingletonComponentRegistry) GetSingletonOrCreateByFactory(name s
 	r.logger().Tracef("singleton '%s' currently is new, start creating", name)
 	r.singletonCurrentlyInCreation.Put(name)
 	r.logger().Tracef("create instance of singleton '%s'", name)
+	created := false
+	defer func() {
+		if !created {
+			// nothing of a failed creation may stay visible, whether it returned an error or panicked
+			r.singletonCurrentlyInCreation.Remove(name)
+			r.earlySingletonObjects.Delete(name)
+			r.singletonFactories.Delete(name)
+		}
+	}()
 	singleton, err := factory.GetComponent()
 	if err != nil {
-		// nothing of a failed creation may stay visible
-		r.singletonCurrentlyInCreation.Remove(name)
-		r.earlySingletonObjects.Delete(name)
-		r.singletonFactories.Delete(name)
 		return nil, err
 	}
+	created = true
 	r.logger().Tracef("singleton '%s' finished creating", name)
 	r.singletonCurrentlyInCreation.Remove(name)
 	r.AddSingleton(name, singleton)
